@@ -78,6 +78,46 @@ def spec_in_space_py(sp, i):
     return b3 == 0 and (b2 != 0 or b1 != 0)
 
 
+def spec_in_sub_py(sp, s, i):
+    """Python transcription of Spec.IdLayoutSpec.in_sub."""
+    return spec_in_space_py(sp, i) and s[0] <= spec_byte(SUB_BYTE_INDEX[sp], i) < s[1]
+
+
+def make_spec_pred(sp, s):
+    """spec_in_sub_py specialised to one (space, subspace): same reading, bytes computed inline."""
+    name = SP_NAME[sp]
+    k = SUB_BYTE_INDEX[sp]
+    lo, hi = s
+    d3 = name in ("8bit_diacritic", "16bit", "32bit")
+
+    def pred(i):
+        if not 0 < i < 4294967296:
+            return False
+        b0 = i % 256
+        b1 = i // 256 % 256
+        b2 = i // 65536 % 256
+        b3 = i // 16777216 % 256
+        if (b3 != 0) != d3:
+            return False
+        if name in ("32bit", "24bit"):
+            if b2 == 0 and b1 == 0:
+                return False
+        elif b2 != 0 or b1 != 0 or (b0 != 0) != (name != "8bit_diacritic"):
+            return False
+        return lo <= (b0, b1, b2, b3)[k] < hi
+    return pred
+
+
+def oracle_sample(l):
+    """Indices of a list on which the extracted Spec predicate is evaluated (a fixed fraction: the
+    ends, the middle and every 41st element; everything when the list is short).  The Python
+    transcription is evaluated on every element."""
+    n = len(l)
+    if n <= 300:
+        return list(range(n))
+    return sorted(set(range(3)) | {n // 2} | set(range(n - 3, n)) | set(range(0, n, 41)))
+
+
 def spec_histogram(sp):
     """h[x] = number of IDs of the space whose subspace byte is x, counted over the zero / non-zero
     classes of the four bytes (weights 1 / 255) with the Spec predicate on one representative."""
@@ -170,15 +210,24 @@ def run(ctx, model):
     def spec_count(sp, s):
         return prefix[sp][s[1]] - prefix[sp][s[0]]
 
-    check_spaces(ctx, model, idm, S, cov)
-    check_static(ctx, model, idm, S, SUB, subs, spec_count, cov)
-    check_members(ctx, model, idm, S, SUB, cov)
-    check_all_ids(ctx, model, idm, S, SUB, subs, spec_count, cov)
-    check_gen(ctx, model, idm, S, SUB, subs, cov)
-    check_split(ctx, model, idm, SUB, subs, cov)
-    check_ctor_and_helpers(ctx, model, idm, SUB, subs, cov)
-    check_strings(ctx, model, idm, S, SUB, subs, cov)
-    check_sqlite(ctx, model, idm, S, SUB, cov)
+    import time
+    steps = [
+        ("spaces", lambda: check_spaces(ctx, model, idm, S, cov)),
+        ("static", lambda: check_static(ctx, model, idm, S, SUB, subs, spec_count, cov)),
+        ("members", lambda: check_members(ctx, model, idm, S, SUB, cov)),
+        ("all_ids", lambda: check_all_ids(ctx, model, idm, S, SUB, subs, spec_count, cov)),
+        ("gen", lambda: check_gen(ctx, model, idm, S, SUB, subs, cov)),
+        ("split", lambda: check_split(ctx, model, idm, SUB, subs, cov)),
+        ("ctor_helpers", lambda: check_ctor_and_helpers(ctx, model, idm, SUB, subs, cov)),
+        ("strings", lambda: check_strings(ctx, model, idm, S, SUB, subs, cov)),
+        ("sqlite", lambda: check_sqlite(ctx, model, idm, S, SUB, cov)),
+    ]
+    timing = {}
+    for name, fn in steps:
+        t = time.time()
+        fn()
+        timing[name] = round(time.time() - t, 1)
+    ctx.notes.append(f"seconds per part: {timing}")
     return cov
 
 
@@ -337,15 +386,22 @@ def check_all_ids(ctx, model, idm, S, SUB, subs, spec_count, cov):
         chunk = full[off:off + CH]
         reps = model.batch([f"c10.all_ids {sp_args(sp)} {s[0]} {s[1]}" for sp, s in chunk])
         impl = [list(S[sp].all_ids(SUB[s])) for sp, s in chunk]
-        oracle = model.batch([f"c10.spec_in_sub_many {sp_args(sp)} {s[0]} {s[1]} {','.join(map(str, l)) if l else '-'}" for (sp, s), l in zip(chunk, impl)])
-        for (sp, s), rep, l, orc in zip(chunk, reps, impl, oracle):
+        samples = [oracle_sample(l) for l in impl]
+        oracle = model.batch([f"c10.spec_in_sub_many {sp_args(sp)} {s[0]} {s[1]} {','.join(str(l[j]) for j in idx) if idx else '-'}"
+                              for (sp, s), l, idx in zip(chunk, impl, samples)])
+        for (sp, s), rep, l, orc, idx in zip(chunk, reps, impl, oracle, samples):
             case = {"kind": "all_ids", "sp": sp, "sub": s}
             cov.add(case, klass=f"all_ids-full/{SP_NAME[sp]}", sample_every=20011)
             if _ints(rep) != l:
                 ml = _ints(rep)
                 d = next((j for j, (x, y) in enumerate(zip(ml, l)) if x != y), min(len(ml), len(l)))
                 brk(ctx, "all_ids differs from the model (compared as lists)", case, {"len": len(l), "at": d, "ids": l[d:d + 3]}, {"len": len(ml), "ids": ml[d:d + 3]})
-            bad = [x for x, o in zip(l, orc) if o != "1"] if l else []
+            bad = [l[j] for j, o in zip(idx, orc) if o != "1"] if idx else []
+            pred = make_spec_pred(sp, s)
+            bad_py = [x for x in l if not pred(x)]
+            if bool(bad) != bool([l[j] for j in idx if not spec_in_sub_py(sp, s, l[j])]):
+                brk(ctx, "extracted Spec predicate and its Python transcription disagree", case, bad_py[:3], bad[:3])
+            bad = bad or bad_py
             if bad:
                 viol(ctx, "all_ids-non-member", f"{SP_NAME[sp]}.all_ids({s[0]}:{s[1]}) yields {bad[0]:#x}, not a member by the byte layout", dict(case, id=bad[0]), space=SP_NAME[sp])
             if len(set(l)) != len(l):
